@@ -378,7 +378,8 @@ SPEC = PropSpec(
                  "(abstract interpreter on all (pos, width) of buffers <= 3 bytes x 4 bit patterns, plus wide reads "
                  "up to 96 bits) turns any unprovable variant into a concrete counterexample and cross-checks the proof."
                  ' R3.w also runs sequences of reads on one object with the cursor set backwards and forwards between reads (no stale window kept on the object).'
-                 ' The witness table also reads the windows of the CCSDS primary-header fields on buffers that are not well-formed packets, and buffers longer than the largest space packet (reads ending beyond octet 65536); the cursor is read the way the program reads it (attribute, class default or property).'),
+                 ' The witness table also reads the windows of the CCSDS primary-header fields on buffers that are not well-formed packets, and buffers longer than the largest space packet (reads ending beyond octet 65536); the cursor is read the way the program reads it (attribute, class default or property).'
+                 ' A last pass repeats the table with DEBUG logging enabled; reads beyond 64 KiB are included; an optional numpy fast path (frombuffer / unpackbits / packbits) is interpreted through an exact mini-model.'),
     rule_doc=("R3.1 one obligation per (path, slice mode) of _extract_bits; R3.2 per feasible path of the two readers; "
               "R3.3 immutability of the buffer class; R3.w witness search per function."),
     assumptions=["CPython semantics of int.from_bytes/to_bytes, >>, &, slicing", "lemma base L1-L8 (re-validated by --selftest)"],
